@@ -11,6 +11,7 @@ use crate::block::{Holder, InBlock, Own, OwnInline, fingerprint};
 use crate::tok::Tok;
 use iceoryx2_bb_container::flatmap::{FixedSizeFlatMap, FlatMap, FlatMapError, RelocatableFlatMap};
 use iceoryx2_bb_container::queue::{FixedSizeQueue, Queue, RelocatableQueue};
+use iceoryx2_bb_container::semantic_string::SemanticString;
 use iceoryx2_bb_container::slotmap::{FixedSizeSlotMap, RelocatableSlotMap, SlotMap, SlotMapKey};
 use iceoryx2_bb_container::string::{
     PolymorphicString, RelocatableString, StaticString, String as IoxString, StringModificationError,
@@ -546,6 +547,90 @@ impl<S: IoxString, H: Holder<S>> Real for StrReal<S, H> {
 }
 
 // ------------------------------------------------------------------------------------------------
+// SemanticString wrapper over StaticString (flavour "semantic" of the string automaton). The wrapper
+// documents THAT insertion fails (capacity, illegal characters) but not which error kind is reported:
+// an error is labelled by the documented reason that applies to the arguments.
+
+pub struct SemReal<const N: usize, S: SemanticString<N>> {
+    s: S,
+}
+
+impl<const N: usize, S: SemanticString<N>> SemReal<N, S> {
+    fn ins(&mut self, k: usize, bytes: &[u8]) -> Outcome {
+        let too_long = self.s.len() + bytes.len() > N;
+        match self.s.insert_bytes(k, bytes) {
+            Ok(()) => out("ok"),
+            Err(_) => out(if too_long { "full" } else { "invalid" }),
+        }
+    }
+}
+
+impl<const N: usize, S: SemanticString<N>> Real for SemReal<N, S> {
+    fn supports(&self, a: &str) -> bool {
+        matches!(a, "push" | "push_bytes" | "insert" | "insert_bytes" | "remove" | "pop" | "truncate"
+            | "strip_prefix" | "strip_suffix" | "find" | "rfind")
+    }
+    fn apply(&mut self, a: &str, i: &[i64], s: &[i64]) -> Outcome {
+        match a {
+            "push" => {
+                let n = self.s.len();
+                self.ins(n, &[i[0] as u8])
+            }
+            "push_bytes" => {
+                let n = self.s.len();
+                self.ins(n, &bytes(s))
+            }
+            "insert" => self.ins(i[0] as usize, &[i[1] as u8]),
+            "insert_bytes" => self.ins(i[0] as usize, &bytes(s)),
+            "remove" => match self.s.remove(i[0] as usize) {
+                Ok(Some(c)) => out_v("some", vec![c as i64]),
+                Ok(None) => out("none"),
+                Err(_) => out("error"),
+            },
+            "pop" => match self.s.pop() {
+                Ok(Some(c)) => out_v("some", vec![c as i64]),
+                Ok(None) => out("none"),
+                Err(_) => out("error"),
+            },
+            "truncate" => match self.s.truncate(i[0] as usize) {
+                Ok(()) => out("ok"),
+                Err(_) => out("error"),
+            },
+            "strip_prefix" => match self.s.strip_prefix(&bytes(s)) {
+                Ok(x) => out(b(x)),
+                Err(_) => out("error"),
+            },
+            "strip_suffix" => match self.s.strip_suffix(&bytes(s)) {
+                Ok(x) => out(b(x)),
+                Err(_) => out("error"),
+            },
+            "find" => match self.s.find(&bytes(s)) {
+                Some(p) => out_v("some", vec![p as i64]),
+                None => out("none"),
+            },
+            "rfind" => match self.s.rfind(&bytes(s)) {
+                Some(p) => out_v("some", vec![p as i64]),
+                None => out("none"),
+            },
+            _ => unreachable!("semantic string action {a}"),
+        }
+    }
+    fn observe(&mut self) -> Result<Vec<i64>, String> {
+        let (cap, len) = (self.s.capacity(), self.s.len());
+        check!(self.s.is_empty() == (len == 0), "is_empty() = {} with len() = {len}", self.s.is_empty());
+        check!(self.s.is_full() == (len == cap), "is_full() = {} with len() = {len}", self.s.is_full());
+        let by = self.s.as_bytes();
+        check!(by.len() == len, "as_bytes().len() = {} with len() = {len}", by.len());
+        let mut o = vec![cap as i64, len as i64];
+        o.extend(by.iter().map(|c| *c as i64));
+        Ok(o)
+    }
+    fn relocate(&mut self) -> bool {
+        false
+    }
+}
+
+// ------------------------------------------------------------------------------------------------
 // lock-free index queues (sequential use; CQueue automaton restricted to push/pop resp.
 // push_with_overflow/pop; observable part of the state: capacity and length)
 
@@ -875,6 +960,13 @@ fn make_inner(kind: &str, flavour: &str, cap: usize, in_block: bool) -> Result<B
             macro_rules! m { ($n:literal) => { hold!(StrReal, StaticString::<$n>::new()) }; }
             by_cap!(cap, m)
         }
+        ("string", "semantic") => match cap {
+            1 => boxed(SemReal::<1, _> { s: crate::semstr::c1::Sem::new(b"").map_err(|e| format!("{e:?}"))? }),
+            2 => boxed(SemReal::<2, _> { s: crate::semstr::c2::Sem::new(b"").map_err(|e| format!("{e:?}"))? }),
+            3 => boxed(SemReal::<3, _> { s: crate::semstr::c3::Sem::new(b"").map_err(|e| format!("{e:?}"))? }),
+            4 => boxed(SemReal::<4, _> { s: crate::semstr::c4::Sem::new(b"").map_err(|e| format!("{e:?}"))? }),
+            c => Err(format!("no semantic string instance for capacity {c}")),
+        },
         ("string", "reloc") => boxed(StrReal { h: InBlock::<RelocatableString>::new_relocatable(cap)?, _p: PhantomData }),
 
         ("indexqueue", "heap") => boxed(IdxQueueReal { h: Own(IndexQueue::new(cap)), _p: PhantomData }),
